@@ -37,3 +37,19 @@ func ZZ_C16_oprf_finalize_hash_input_is_RFC9497() {
 	want = append(want, []byte("Finalize")...)
 	zzAssert(zzBytesEq(got, want), "Finalize hash input = RFC 9497 framing")
 }
+
+// C16: the partially-oblivious tweak of RFC 9497 3.3.3: m = HashToScalar("Info" || I2OSP(len(info), 2)
+// || info) with the domain separation tag "HashToScalar-" || context string, for every info string
+// of the lengths 0, 1, 250, 251 and 300 (all bytes symbolic): every byte of info reaches the hash.
+
+//zz: prop=C16 tier=quick backend=bv timeout=120
+func ZZ_C16_oprf_scalarFromInfo_frames_the_whole_info() {
+	p := params{m: PartialObliviousMode, group: zzGrp{}, identifier: "abstract"}
+	info := make([]byte, zzPick("infolen", 0, 1, 250, 251, 300))
+	zzFill("info", info)
+	_, err := p.scalarFromInfo(info)
+	zzAssert(err == nil, "info of at most 65535 bytes is accepted")
+	want := append([]byte("Info"), byte(len(info)>>8), byte(len(info)))
+	want = append(want, info...)
+	zzAssert(zzBytesEq(zzH2SLastMsg, want), "hash-to-scalar input = \"Info\" || I2OSP(len(info), 2) || info")
+}
